@@ -26,7 +26,7 @@ for p in props:
                                text=getattr(m, "LEVEL_TEXT", "Bounded symbolic execution of the real functions with z3 deciding every obligation: "
                                     "within the stated sizes the obligations hold for every value of the symbolic data, or a replayed counterexample is reported. "
                                     + m.EXPLANATION),
-                               design_ref=f"DESIGN.md section 3, {pid}"),
+                               design_ref=f"DESIGN.md section 3 ({pid}, plan) and section 10 (as built)"),
             level_note="Trusted: z3, the symx engine (exact rational-function arithmetic, path explorer), numpy's object-array dispatch, "
                        "and the stubs listed in the evidence file; real-number semantics (no IEEE rounding); sizes beyond the stated bounds are outside the claim. "
                        + "; ".join(getattr(m, "ASSUMPTIONS", [])),
